@@ -30,7 +30,7 @@ def InComment (cs : CharSpec) (input : List Char) (p q : Nat) : Prop :=
 
 /-! ### the token that holds a given character -/
 
-theorem tok_at_char {off : Nat} {ts : List Tok} (hc : Chain off ts) {a z : List Char} {c : Char}
+theorem cov_tok_at_char {off : Nat} {ts : List Tok} (hc : Chain off ts) {a z : List Char} {c : Char}
     (h : ts.flatMap (·.text) = a ++ c :: z) :
     ∃ t ∈ ts, ∃ a' z', t.text = a' ++ c :: z' ∧ t.start + utf8Len a' = off + utf8Len a := by
   induction ts generalizing off a with
@@ -58,7 +58,7 @@ theorem tok_at_char {off : Nat} {ts : List Tok} (hc : Chain off ts) {a z : List 
         exact ⟨t, by simp, a, r, e1, by omega⟩
 
 /-- a letter or digit inside a token of the body: in a comment, or covered by an event -/
-theorem body_char_covered (cs : CharSpec) (hs : AlnumSpec cs) (ext : Ext) (input : List Char)
+theorem cov_body_char_covered (cs : CharSpec) (hs : AlnumSpec cs) (ext : Ext) (input : List Char)
     {t : Tok} (ht : t ∈ bodyToks cs input) {a' z' : List Char} {c : Char} (htx : t.text = a' ++ c :: z')
     (ha : cs.alnum c = true) :
     InComment cs input (t.start + utf8Len a') (t.start + utf8Len a' + c.utf8Size) ∨
@@ -96,7 +96,7 @@ theorem body_char_covered (cs : CharSpec) (hs : AlnumSpec cs) (ext : Ext) (input
 
 /-! ### the lines around the front matter carry no letter or digit -/
 
-theorem dropWhile_head_not {β : Type} (p : β → Bool) (l : List β) (x : β) (t : List β)
+theorem cov_dropWhile_head_not {β : Type} (p : β → Bool) (l : List β) (x : β) (t : List β)
     (h : l.dropWhile p = x :: t) : p x = false := by
   induction l with
   | nil => simp at h
@@ -108,7 +108,7 @@ theorem dropWhile_head_not {β : Type} (p : β → Bool) (l : List β) (x : β) 
       simp only [List.cons.injEq] at h
       rw [← h.1]; simpa using hp
 
-theorem fence_chars {cs : CharSpec} {l : List Char} (h : isFence cs l = true) :
+theorem cov_fence_chars {cs : CharSpec} {l : List Char} (h : isFence cs l = true) :
     ∀ c ∈ l, cs.uws c = true ∨ c = '-' := by
   unfold isFence trimEnd at h
   have hsplit := List.takeWhile_append_dropWhile (p := cs.uws) (l := l.reverse)
@@ -126,7 +126,7 @@ theorem fence_chars {cs : CharSpec} {l : List Char} (h : isFence cs l = true) :
     exact hall c hc'
   · right; rcases hc' with h | h | h <;> exact h
 
-theorem blank_chars {cs : CharSpec} {l : List Char} (h : (trim cs.uws l).isEmpty = true) :
+theorem cov_blank_chars {cs : CharSpec} {l : List Char} (h : (trim cs.uws l).isEmpty = true) :
     ∀ c ∈ l, cs.uws c = true := by
   intro c hc
   cases hu : cs.uws c with
@@ -137,7 +137,7 @@ theorem blank_chars {cs : CharSpec} {l : List Char} (h : (trim cs.uws l).isEmpty
 
 /-- the front-matter split, with what the skipped parts consist of: `pre` (blank lines and the
     opening fence) and `mid` (the closing fence) contain only white space and `-` -/
-theorem frontmatter_layout (cs : CharSpec) (s : List Char) (fm : FrontMatter)
+theorem cov_frontmatter_layout (cs : CharSpec) (s : List Char) (fm : FrontMatter)
     (h : parseFrontmatter cs s = some fm) :
     ∃ pre mid, s = pre ++ fm.yamlText ++ mid ++ fm.cookText ∧
       fm.yamlOffset = utf8Len pre ∧ fm.cookOffset = utf8Len (pre ++ fm.yamlText ++ mid) ∧
@@ -152,7 +152,7 @@ theorem frontmatter_layout (cs : CharSpec) (s : List Char) (fm : FrontMatter)
   · cases h
   · rename_i f1 rest1 hd1
     have hf1 : isFence cs f1.1 = true := by
-      have := dropWhile_head_not _ _ _ _ hd1
+      have := cov_dropWhile_head_not _ _ _ _ hd1
       simpa using this
     split at h
     · cases h
@@ -162,7 +162,7 @@ theorem frontmatter_layout (cs : CharSpec) (s : List Char) (fm : FrontMatter)
       · cases h
       · rename_i f2 rest2 hd2
         have hf2 : isFence cs f2.1 = true := by
-          have := dropWhile_head_not _ _ _ _ hd2
+          have := cov_dropWhile_head_not _ _ _ _ hd2
           simpa using this
         simp only [Option.some.injEq] at h
         rw [hd1] at hsplit1
@@ -187,13 +187,13 @@ theorem frontmatter_layout (cs : CharSpec) (s : List Char) (fm : FrontMatter)
           · left
             have hb : (before.all (fun l => (trim cs.uws l.1).isEmpty)) = true := by simpa using hall
             rw [List.all_eq_true] at hb
-            exact blank_chars (hb l hl) c hcl
-          · exact fence_chars hf1 c hc
-        · exact fence_chars hf2
+            exact cov_blank_chars (hb l hl) c hcl
+          · exact cov_fence_chars hf1 c hc
+        · exact cov_fence_chars hf2
 
 /-! ### every letter or digit of the input -/
 
-theorem char_in_append {x y a z : List Char} {c : Char} (h : a ++ c :: z = x ++ y) :
+theorem cov_char_in_append {x y a z : List Char} {c : Char} (h : a ++ c :: z = x ++ y) :
     (∃ z', x = a ++ c :: z') ∨ (∃ a', a = x ++ a' ∧ y = a' ++ c :: z) := by
   rcases List.append_eq_append_iff.mp h with ⟨a1, e1, e2⟩ | ⟨c1, e1, e2⟩
   · cases a1 with
@@ -207,7 +207,7 @@ theorem char_in_append {x y a z : List Char} {c : Char} (h : a ++ c :: z = x ++ 
       exact ⟨r, e1⟩
   · exact Or.inr ⟨c1, e1, e2⟩
 
-theorem fromStr_span (s : List Char) (off : Nat) (hne : s ≠ []) :
+theorem cov_fromStr_span (s : List Char) (off : Nat) (hne : s ≠ []) :
     (Text.fromStr s off).span = ⟨off, off + utf8Len s⟩ := by
   cases s with
   | nil => exact absurd rfl hne
@@ -219,7 +219,7 @@ theorem fromStr_span (s : List Char) (off : Nat) (hne : s ≠ []) :
     the source span of an event of the pull parser: a text, an ingredient, a cookware, a timer, a
     metadata entry (key start to value end), a section name, or the front matter.  No hypothesis on
     the diagnostics is needed. -/
-theorem input_conservation (cs : CharSpec) (hs : AlnumSpec cs) (ext : Ext) (input a z : List Char)
+theorem cov_input_conservation (cs : CharSpec) (hs : AlnumSpec cs) (ext : Ext) (input a z : List Char)
     (c : Char) (hin : input = a ++ c :: z) (ha : cs.alnum c = true) :
     InComment cs input (utf8Len a) (utf8Len a + c.utf8Size) ∨
     BytesCovered (pullEvents (α := α) cs ext input).1 (utf8Len a) (utf8Len a + c.utf8Size) := by
@@ -232,17 +232,17 @@ theorem input_conservation (cs : CharSpec) (hs : AlnumSpec cs) (ext : Ext) (inpu
     have hb : bodyToks cs input = lexFrom cs 0 input := by unfold bodyToks lex; rw [hp]
     have htile : (lexFrom cs 0 input).flatMap (·.text) = a ++ c :: z := by
       rw [← hin]; exact lexFrom_tile cs 0 input
-    obtain ⟨t, ht, a', z', k1, k2⟩ := tok_at_char (lexFrom_chain cs 0 input) htile
-    have := body_char_covered (α := α) cs hs ext input (t := t) (by rw [hb]; exact ht) k1 ha
+    obtain ⟨t, ht, a', z', k1, k2⟩ := cov_tok_at_char (lexFrom_chain cs 0 input) htile
+    have := cov_body_char_covered (α := α) cs hs ext input (t := t) (by rw [hb]; exact ht) k1 ha
     have e : t.start + utf8Len a' = utf8Len a := by omega
     rw [e] at this; exact this
   | some fm =>
     have hb : bodyToks cs input = lexFrom cs fm.cookOffset fm.cookText := by unfold bodyToks; rw [hp]
-    obtain ⟨pre, mid, e, o1, o2, hpre, hmid⟩ := frontmatter_layout cs input fm hp
+    obtain ⟨pre, mid, e, o1, o2, hpre, hmid⟩ := cov_frontmatter_layout cs input fm hp
     have hsplit : a ++ c :: z = pre ++ (fm.yamlText ++ (mid ++ fm.cookText)) := by rw [← hin, e]; simp
-    rcases char_in_append hsplit with ⟨z', e1⟩ | ⟨a2, e1, e2⟩
+    rcases cov_char_in_append hsplit with ⟨z', e1⟩ | ⟨a2, e1, e2⟩
     · exact absurd (hpre c (by rw [e1]; simp)) hnu
-    rcases char_in_append e2.symm with ⟨z', e3⟩ | ⟨a3, e3, e4⟩
+    rcases cov_char_in_append e2.symm with ⟨z', e3⟩ | ⟨a3, e3, e4⟩
     · -- inside the YAML text: the front-matter event
       right
       obtain ⟨L, hL, -⟩ := mfront_pullEvents (α := α) cs ext input fm hp
@@ -254,20 +254,20 @@ theorem input_conservation (cs : CharSpec) (hs : AlnumSpec cs) (ext : Ext) (inpu
         exact (List.mem_filter.mp this).1
       have hne : fm.yamlText ≠ [] := by rw [e3]; simp
       refine ⟨_, hmem, _, rfl, ?_, ?_⟩
-      · rw [fromStr_span _ _ hne, o1, e1, utf8Len_append]
+      · rw [cov_fromStr_span _ _ hne, o1, e1, utf8Len_append]
         show utf8Len pre ≤ utf8Len pre + utf8Len a2
         omega
-      · rw [fromStr_span _ _ hne, o1, e1, utf8Len_append]
+      · rw [cov_fromStr_span _ _ hne, o1, e1, utf8Len_append]
         show utf8Len pre + utf8Len a2 + c.utf8Size ≤ utf8Len pre + utf8Len fm.yamlText
         rw [e3, utf8Len_append, utf8Len_cons]
         omega
-    rcases char_in_append e4.symm with ⟨z', e5⟩ | ⟨a4, e5, e6⟩
+    rcases cov_char_in_append e4.symm with ⟨z', e5⟩ | ⟨a4, e5, e6⟩
     · exact absurd (hmid c (by rw [e5]; simp)) hnu
     · -- inside the body
       have htile : (lexFrom cs fm.cookOffset fm.cookText).flatMap (·.text) = a4 ++ c :: z := by
         rw [lexFrom_tile, e6]
-      obtain ⟨t, ht, a', z', k1, k2⟩ := tok_at_char (lexFrom_chain cs fm.cookOffset fm.cookText) htile
-      have := body_char_covered (α := α) cs hs ext input (t := t) (by rw [hb]; exact ht) k1 ha
+      obtain ⟨t, ht, a', z', k1, k2⟩ := cov_tok_at_char (lexFrom_chain cs fm.cookOffset fm.cookText) htile
+      have := cov_body_char_covered (α := α) cs hs ext input (t := t) (by rw [hb]; exact ht) k1 ha
       have e : t.start + utf8Len a' = utf8Len a := by
         rw [k2, o2, e1, e3, e5]
         simp only [utf8Len_append]
@@ -297,13 +297,13 @@ theorem toyCharSpec_alnumSpec : AlnumSpec toyCharSpec := by
 
 /-- the three component parsers: the returned event spans exactly the consumed bytes, so every
     consumed token lies inside it -/
-theorem component_span_exact {ts : List Tok} (hw : WF ts) {e : Ext} {s : BP α} (hg : G ts e s)
+theorem cov_component_span_exact {ts : List Tok} (hw : WF ts) {e : Ext} {s : BP α} (hg : G ts e s)
     (p : P α (Option (Ev α))) (hp : p = ingredientP ∨ p = cookwareP ∨ p = timerP) (ev : Ev α)
     (hr : (p s).1 = some ev) :
     ev.srcSpan = some ⟨offAt ts s.cur, offAt ts (p s).2.cur⟩ ∧
     ∀ (i : Nat) (t : Tok), s.cur ≤ i → i < (p s).2.cur → ts[i]? = some t →
       offAt ts s.cur ≤ t.start ∧ t.stop ≤ offAt ts (p s).2.cur := by
-  have hwi := wf_wfi hw
+  have hwi := cov_wf_wfi hw
   have hc : Ctx 0 _ (fun _ : Array (Ev α) => True) ts := ⟨hwi, fun _ _ _ _ => ⟨trivial, trivial⟩⟩
   have hge : GE (fun _ : Array (Ev α) => True) ts e s := ⟨hg, trivial⟩
   have hat : EvAt ts s.cur (p s).2.cur (p s).1 := by
